@@ -306,6 +306,29 @@ Proof.
     apply Hcols, nth_In. exact Hpt.
 Qed.
 
+(* ColMatrix::evaluate_columns_over: every column is evaluated over the coset; every column count, size, blowup *)
+Lemma colmatrix_ok_intro (polys : list (list F)) K :
+  polys <> [] -> (forall p, In p polys -> length p = 2 ^ S K) -> colmatrix_ok polys = true.
+Proof.
+  intros Hne Hcols. unfold colmatrix_ok. destruct polys as [|c0 rest]; [contradiction|].
+  assert (H0 : length c0 = 2 ^ S K) by (apply Hcols; left; reflexivity).
+  rewrite H0, is_pow2_pow2.
+  assert (E : (1 <? 2 ^ S K) = true) by (apply Nat.ltb_lt; rewrite pow2_S; pose proof (pow2_pos K); lia).
+  rewrite E. cbn [andb]. apply forallb_forall. intros c Hc. apply Nat.eqb_eq. apply Hcols. right. exact Hc.
+Qed.
+
+Theorem evaluate_columns_over_correct two_adicity (polys : list (list F)) tw K b g offset :
+  polys <> [] -> (forall p, In p polys -> length p = 2 ^ S K) -> length tw = 2 ^ K -> S K + b <= two_adicity ->
+  root_of_unity (S K + b) = g -> root_cond O (S K + b) g -> tw_ok O tw (S K) (fpow g (2 ^ b)) -> offset <> fz ->
+  evaluate_columns_over O two_adicity root_of_unity polys tw offset (2 ^ b)
+    = Some (map (fun p => map (fun i => peval p (offset *f fpow g i)) (seq 0 (2 ^ (S K + b)))) polys).
+Proof.
+  intros Hne Hcols Hlt Had Hg Hgc Ht Hoff. unfold evaluate_columns_over.
+  rewrite (colmatrix_ok_intro polys K Hne Hcols). cbn [negb].
+  apply sequence_some. intros p Hp.
+  apply (evaluate_poly_with_offset_correct O L two_adicity root_of_unity tw K b g offset p); auto.
+Qed.
+
 (* number of segments: ceil(m / N) *)
 Lemma nseg_bounds m : 0 < N -> 0 < m ->
   let nseg := if m mod N =? 0 then m / N else m / N + 1 in
